@@ -77,10 +77,73 @@ def items(tier):
                 for pre in pres:
                     for cached in ((False, True) if "de" in sel else (False,)):
                         out.append({"sel": list(sel), "comb_pkg": comb_pkg, "dep_pkgs": list(dep_pkgs), "pre": pre, "cached": cached})
+    # crash points of a link-updating re-run
+    for sel, pk in ((["de"], [""]), (["de", "dc"], ["p", ""]), (["dk", "de"], ["", "p/q"]), (["de", "dg", "dc"], ["p", "p", "p"])):
+        for comb_pkg in ("", "p"):
+            out.append({"crash": True, "sel": sel, "comb_pkg": comb_pkg, "dep_pkgs": pk, "pre": "absent", "cached": False})
     return out
 
 
+def crash_item(item, tier):
+    """cond killed at every point of a re-run (--again) that updates the combine's links; then a plain run must leave the
+    entries resolving to exactly what a sibling receives in COND_DEPS."""
+    from .c06 import RunSnapshotter
+    res = {"evals": 0, "sigs": set(), "states": set(), "transitions": 0, "violations": [], "counters": {}, "sample": None}
+    found = {}
+    sel, comb_pkg, dep_pkgs = item["sel"], item["comb_pkg"], item["dep_pkgs"]
+    files, ids = project(comb_pkg, sel, dep_pkgs)
+    root = driver.fresh_project(files, name="c18c")
+    target = "//%s:top" % comb_pkg
+    comb_out = os.path.join("cond-out", comb_pkg, "comb.task")
+
+    def run(flags, t, tracer=None):
+        vk = vkmod.VK(behaviours={}, project_root=root)
+        r = driver.run_cli(["run", target] + flags, root, vk=vk, git=fakegit.NO_GIT, clock=driver.Clock(t), tracer=tracer)
+        return r, vk
+
+    run([], 1_700_000_010)
+    snapdir = os.path.join(driver.scratch_root(), "c18snaps")
+    tracer = RunSnapshotter(root, snapdir)
+    run(["--again"], 1_700_000_020, tracer=tracer)
+    res["transitions"] += 2
+    res["counters"]["crash_states"] = len(tracer.snapshots)
+    for i, snap in enumerate(tracer.snapshots):
+        hist.restore_snapshot(snap, root)
+        res["evals"] += 1
+        res["transitions"] += 1
+        res["states"].add(explore.sig([item, "crash", i]))
+        res["sigs"].add(explore.sig([item, "crash", i]))
+        art = dict(item, crash=i, at=tracer.where[i])
+        r, vk = run([], 1_700_000_030)
+        if r.exc is not None:
+            found.setdefault("combine:crash-then-run:internal-error", ("cond killed at %s during `run --again`; the next `cond run` dies with %s: %s"
+                                                                       % (tracer.where[i], type(r.exc).__name__, r.exc), art))
+            continue
+        if r.exit != 0:
+            found.setdefault("combine:crash-then-run:failed", ("cond killed at %s; the next run exits %r: %s" % (tracer.where[i], r.exit, (r.err_text + r.out_text)[-200:]), art))
+            continue
+        spawns = {e[2]: e[3] for e in vk.log if e[0] == "spawn"}
+        sib = spawns.get("//%s:sib" % comb_pkg)
+        cdir = os.path.join(root, comb_out)
+        if sib is None:
+            # everything cached and the sibling is a run_command: it always runs
+            found.setdefault("combine:crash-then-run:sibling-not-run", ("sibling did not run", art))
+            continue
+        want = sorted(os.path.realpath(p) for p in (sib["deps"] or "").split(":") if p and os.path.isdir(p) and os.listdir(p))
+        got = sorted(os.path.realpath(os.path.join(cdir, x)) for x in os.listdir(cdir))
+        if got != want:
+            found.setdefault("combine:crash-then-run:wrong-targets", ("cond killed at %s; after the next run the combine entries resolve to %s but dependents "
+                                                                      "receive %s" % (tracer.where[i], got, want), art))
+    shutil.rmtree(snapdir, ignore_errors=True)
+    res["sample"] = {"combine_over": sel, "history": ["run", "run --again (killed at every point)", "run"], "crash_states": len(tracer.snapshots)}
+    for key, (what, a) in found.items():
+        res["violations"].append({"key": key, "what": what, "artefact": a})
+    return res
+
+
 def run_item(item, tier):
+    if item.get("crash"):
+        return crash_item(item, tier)
     res = {"evals": 0, "sigs": set(), "states": set(), "transitions": 0, "violations": [], "counters": {}, "sample": None}
     found = {}
     art = dict(item)
